@@ -28,7 +28,7 @@ def r1_r2_reduce(ctx):
     table = []
     for batchable in (True, False):
         for yields in (None, ("y", [0, 1])):
-            for bs in (0, 2):
+            for bs in (0, 1, 2):
                 for keep in (False, True):
                     ip = Interp(repo, max_while=1, max_iter=1)
                     paths = ip.explore(fi, args={"payload": _payload(batchable), "yields": yields, "dim": "d", "batch_size": bs, "keep_dim": keep})
@@ -40,7 +40,7 @@ def r1_r2_reduce(ctx):
                         big = any(d.key.startswith("lt(2,") and d.value for d in p.decisions)
                         if bt and not may_batch:
                             ctx.violation("C13.R1", fi.qual, loc(fi, bt[0].node), "batching guard",
-                                          f"{atoms}: the batching rewrite is applied; it is only valid for a callable marked batchable and never for a generator", row=atoms)
+                                          f"{atoms}: the batching rewrite is applied; it is only valid for a batch size > 1 (a batch of one node never shrinks the dimension), a callable marked batchable, and never for a generator", row=atoms)
                             continue
                         if bs > 1 and big and not may_batch and p.exit[0] != "raise":
                             ctx.violation("C13.R1", fi.qual, loc(fi), "batching refused with an error",
@@ -146,6 +146,78 @@ def r3_mean_std(ctx):
                     ctx.ok("C13.R3", loc(fi), f"{name}: batched path = batched sum(s) over the dimension / its size")
         if seen != {"plain", "batched"}:
             ctx.undecided("C13.R3", loc(fi), f"{name}: expected a plain and a batched path, found {sorted(seen)}")
+        # batch_size 0 and 1 never batch (a batch of one node per level would never shrink the dimension)
+        for bs in (0, 1):
+            for p in Interp(repo).explore(fi, args={"dim": "d", "batch_size": bs, "keep_dim": False, "backend_kwargs": {}}):
+                ctx.evals(1)
+                red = [e for e in p.effects if is_call(e, qual=f"{F}.Action.reduce")]
+                nested = [e for e in p.effects if e.kind == "call" and (e.data.get("qual") or "") in (f"{F}.Action.sum", f"{F}.Action.mean")]
+                if p.exit[0] != "return" or len(red) != 1 or nested or red[0].data["kwargs"].get("batch_size") not in (0, None):
+                    ctx.violation("C13.R3", fi.qual, loc(fi), f"{name} with batch_size={bs}",
+                                  f"{name}(batch_size={bs}) must be the plain reduce with backends.{name}: it ends {p.exit[0]} with {len(red)} reduce call(s) and "
+                                  f"{len(nested)} nested batched reduction(s)")
+                else:
+                    ctx.ok("C13.R3", loc(fi), f"{name}: batch_size={bs} -> plain reduce")
+
+
+def r6_named_reduction_options(ctx):
+    """C13.R6: the options of a named reduction act the same on every path (batched or not): `keep_dim` reaches every reduce / nested
+    reduction the path builds, `backend_kwargs` reaches the back-end call's keyword arguments, and no nested fluent call is handed a
+    keyword its signature does not have (so a batch size never turns a valid call into a TypeError or changes the result's dims)."""
+    repo = ctx.repo
+    names = ["mean", "std", "sum", "min", "max", "prod"]
+    n = 0
+    for name in names:
+        fi = repo.func(f"{F}.Action.{name}")
+        ctx.analysed(fi.qual)
+        KD = Sym("KEEP")
+        for bs in (0, 2):
+            paths = Interp(repo).explore(fi, args={"dim": "d", "batch_size": bs, "keep_dim": KD, "backend_kwargs": {"opt": "v"}})
+            ctx.evals(len(paths))
+            for p in paths:
+                n += 1
+                if p.exit[0] != "return":
+                    ctx.violation("C13.R6", fi.qual, loc(fi), f"{name} completes", f"{name}(dim='d', batch_size={bs}, keep_dim=K, backend_kwargs={{'opt': 'v'}}) ends {p.exit[0]} "
+                                  f"{vkey(p.exit[1])[:80]}")
+                    break
+                calls = [e for e in p.effects if e.kind == "call" and (e.data.get("qual") or "").startswith(f"{F}.Action.")]
+                bad = None
+                for e in calls:
+                    q = e.data["qual"]
+                    cfi = repo.funcs.get(q)
+                    if cfi is None:
+                        continue
+                    a = cfi.node.args
+                    params = {x.arg for x in a.posonlyargs + a.args + a.kwonlyargs}
+                    unknown = [k for k in e.data["kwargs"] if not k.startswith("**") and k not in params]
+                    if unknown and a.kwarg is None:
+                        bad = (e, f"calls {q.rsplit('.', 1)[-1]}(...) with keyword(s) {unknown} that it does not accept (TypeError as soon as backend_kwargs is not empty)")
+                        break
+                    short = q.rsplit(".", 1)[-1]
+                    if short in ("reduce",) + tuple(names) and "keep_dim" in params:
+                        pos = [x.arg for x in a.posonlyargs + a.args]
+                        kd = e.data["kwargs"].get("keep_dim")
+                        if kd is None and "keep_dim" in pos and len(e.data["args"]) >= pos.index("keep_dim"):
+                            i = pos.index("keep_dim") - 1  # receiver not in args
+                            kd = e.data["args"][i] if 0 <= i < len(e.data["args"]) else None
+                        if vkey(kd) != "KEEP":
+                            bad = (e, f"builds {short}(...) with keep_dim={vkey(kd)} instead of the caller's keep_dim: the result has other dimensions than on the "
+                                      f"{'un-batched' if bs else 'batched'} path")
+                            break
+                if bad is None:
+                    # the option dict reaches the back end: in a Payload's kwargs or as backend_kwargs of a nested reduction
+                    reach = any("'opt'" in vkey(e.data["kwargs"]) or "'opt'" in vkey(e.data["args"]) for e in p.effects if e.kind == "call")
+                    if not reach:
+                        bad = (None, "drops backend_kwargs: no call on this path receives the options")
+                batched_path = not any(is_call(e, qual=f"{F}.Action.reduce") for e in p.effects) or bs == 2 and any(
+                    d.key.startswith("lt(2,") and d.value for d in p.decisions)
+                label = f"{name} | batch_size={bs} ({'batched' if batched_path else 'plain'} path)"
+                if bad is not None:
+                    ctx.violation("C13.R6", fi.qual, loc(fi, bad[0].node) if bad[0] is not None else loc(fi), f"{name}: options on the {'batched' if batched_path else 'plain'} path",
+                                  f"{label}: {bad[1]}", row={"reduction": name, "batch_size": bs, "path": "batched" if batched_path else "plain"})
+                else:
+                    ctx.ok("C13.R6", loc(fi), f"{label}: keep_dim and backend_kwargs forwarded, nested calls well-formed")
+    ctx.floor("C13.R6.paths", n, 12)
 
 
 def r5_broadcast(ctx):
@@ -175,7 +247,7 @@ def r5_broadcast(ctx):
     ctx.floor("C13.R5.sites", n, 1)
 
 
-RULES = [r1_r2_reduce, r4_batch_transform, r3_mean_std, r5_broadcast]
+RULES = [r1_r2_reduce, r4_batch_transform, r3_mean_std, r5_broadcast, r6_named_reduction_options]
 
 from .C15 import r1_markers, r4_take  # noqa: E402  (batching relies on the markers; expand relies on take)
 
